@@ -22,6 +22,8 @@ def gen_frame(rng):
     fd = {"size": n, "sigs": F.rand_disjoint_sigs(rng, n, maxn=8)}
     if rng.random() < 0.3:
         fd["sc"] = True          # signals with physical scaling, limits and start values (no business of the raw codec)
+    if rng.random() < 0.2:
+        fd["j"] = True           # flagged as a J1939 frame
     return fd
 
 
